@@ -58,11 +58,11 @@ void __wrap_free(void* p) { if (p) noteAlloc(); __real_free(p); }
 // instance storage: placement construction over pre-filled memory (C09, C17)
 
 static constexpr size_t STORE_SIZE = sizeof(Instance) + 64;
-alignas(64) static unsigned char g_store[4][STORE_SIZE];
-static cfg::CtxData g_ctx[4];
-static cfg::CtxData g_ctxAlt[4];
+alignas(64) static unsigned char g_store[5][STORE_SIZE];
+static cfg::CtxData g_ctx[5];
+static cfg::CtxData g_ctxAlt[5];
 #if HAS_LOG
-static cfg::Lg g_lg[4];
+static cfg::Lg g_lg[5];
 #endif
 
 static void prefill(unsigned slot, uint64_t caseSeed) {
@@ -843,6 +843,33 @@ struct Case {
 		opDestroy(3);
 	}
 
+	// a copy of the authority taken from inside one of its callbacks (fsm_states.hpp: hub): whatever the machine was in
+	// the middle of, the copy is a machine, and its cycles deliver their phases (C05; nothing else is known about it)
+	void snapshotCheck() {
+		Inst& sn = w.inst[4];
+		const void* ctxExp = A().ctxExpected;
+		sn = Inst{};
+		sn.slot = 4;
+		sn.obj = reinterpret_cast<Instance*>(g_store[4]);
+		sn.alive = true;
+		sn.policy = POL_PASSIVE;
+		sn.ctxExpected = ctxExp;
+		const ffsm2::StateID act = sn.obj->activeStateId();
+		sn.cur = act == ffsm2::INVALID_STATE_ID ? -1 : static_cast<int>(act);
+		sn.rootIn = sn.cur >= 0;
+		w.muteExceptC05 = true;
+		if (sn.cur >= 0) {
+			opUpdate(sn);
+			opReact(sn, 6 + (w.caseNo & 1));
+			opQuery(sn);
+			opUpdate(sn);
+			w.stats.add("snapshot_copies_cycled");
+		}
+		opDestroy(4);
+		w.muteExceptC05 = false;
+		w.snapPending = false;
+	}
+
 	// the machine is moved to another address and back (move construction; the object moved from is destroyed each
 	// time): the history simply continues on the new object, so every monitor keeps its expectations
 	void relocate() {
@@ -901,6 +928,7 @@ struct Case {
 		unsigned nOps = 1 + w.ch.draw(maxOps);
 		if (w.ch.chance(1, 25)) nOps *= 12;   // now and then a long history
 		for (unsigned i = 0; i < nOps && !w.stopCase; ++i) {
+			if (w.snapPending) snapshotCheck();
 			if (HAS_LOG && logMode == 2 && w.aux.chance(1, 6)) opAttach(a, !a.loggerAttached);
 			const OpDesc d = pickOp();
 			switch (d.op) {
@@ -922,11 +950,13 @@ struct Case {
 			}
 		}
 		// wind down
+		if (w.snapPending) snapshotCheck();
 #if CFG_MANUAL
 		if (a.cur >= 0 && w.ch.chance(7, 8)) opExit(a);
 		for (unsigned s = 1; s < 4; ++s) if (w.inst[s].alive && w.inst[s].cur >= 0) { w.inst[s].policy = POL_PASSIVE; opExit(w.inst[s]); }
 #endif
 		for (unsigned s = 0; s < 4; ++s) if (w.inst[s].alive) { if (s) w.inst[s].policy = POL_PASSIVE; opDestroy(s); }
+		if (w.snapPending) snapshotCheck();   // taken during the wind-down itself
 	}
 };
 
@@ -1173,6 +1203,17 @@ int main(int argc, char** argv) {
 	static World world;
 	W = &world;
 	world.events.reserve(1u << 15);
+	// (not with states that are visible through an attached verbose logger only: the snapshot has no logger of its own)
+	if (!cfg::BARE) world.snapshotHook = [](Inst& in, ffsm2::Method m) {
+		World& w = *W;
+		prefill(4, w.caseNo + 3000);
+		LIB(new (g_store[4]) Instance(*in.obj));
+#if HAS_LOG
+		LIB(reinterpret_cast<Instance*>(g_store[4])->attachLogger(nullptr));   // the authority's logger stays the authority's
+#endif
+		w.snapPending = true;
+		w.stats.add2("snapshots_taken_inside", mname(m));
+	};
 	world.readPlanHook = [](Inst& in) {
 #if HAS_PLANS
 		bool ok = true;
